@@ -1116,9 +1116,16 @@ pub(crate) fn interpret_isodatetime_offset(
 
     // 2. Let isoDateTime be CombineISODateAndTimeRecord(isoDate, time).
     // TODO: Deal with offsetBehavior == wall.
-    match (is_exact, offset_nanos) {
+    // NOTE: `is_exact` is the `Z` designator: an exact UTC time (an offset of zero), whatever the
+    // offset option says. An explicit numeric offset is exact only with the `use` option.
+    let exact_offset = match (is_exact, offset_nanos) {
+        (true, _) => Some(offset_nanos.unwrap_or(0)),
+        (false, Some(offset)) if offset_option == OffsetDisambiguation::Use => Some(offset),
+        _ => None,
+    };
+    match (exact_offset, offset_nanos) {
         // 4. If offsetBehaviour is exact, or offsetBehaviour is option and offsetOption is use, then
-        (true, Some(offset)) if offset_option == OffsetDisambiguation::Use => {
+        (Some(offset), _) => {
             // a. Let balanced be BalanceISODateTime(isoDate.[[Year]], isoDate.[[Month]],
             // isoDate.[[Day]], time.[[Hour]], time.[[Minute]], time.[[Second]], time.[[Millisecond]],
             // time.[[Microsecond]], time.[[Nanosecond]] - offsetNanoseconds).
